@@ -35,6 +35,7 @@ class ModeRun(object):
         self.tag = '%s/%d' % (adapter, nr)
         if self.ok:
             self.g.ex('DIM A%(2200)')
+        self.noise = {}
 
     # ---- background --------------------------------------------------------
     def background(self):
@@ -85,6 +86,25 @@ class ModeRun(object):
         if r[0] != 'ok':
             e['fail'] = [r[0], r[1]]
         self.events.append(e)
+
+    # ---- refused statements (history) --------------------------------------
+    def refused(self):
+        """A graphics statement that is refused (Illegal function call) must leave the screen unclipped and untransformed: the
+        primitives after it are judged like all others (round-2 seeded change C31b kept the clip rectangle of a refused VIEW)."""
+        g, rng = self.g, self.rng
+        x, y = rng.randint(1, g.W - 2), rng.randint(1, g.H - 2)
+        x2, y2 = rng.randint(1, g.W - 2), rng.randint(1, g.H - 2)
+        st = rng.choice(['VIEW (%d,%d)-(%d,%d)' % (x, y, x, y2), 'VIEW (%d,%d)-(%d,%d)' % (x, y, x2, y),
+                         'VIEW SCREEN (%d,%d)-(%d,%d)' % (x, y, x, y2), 'VIEW (%d,%d)-(%d,%d),%d,%d' % (x, y, x2, y, self.draw[0], self.draw[0]),
+                         'VIEW (%d,5)-(%d,50)' % (g.W + 10, g.W + 50), 'VIEW SCREEN (5,%d)-(50,%d)' % (g.H + 10, g.H + 70),
+                         'WINDOW (1,1)-(1,5)', 'WINDOW SCREEN (2,3)-(7,3)', 'DRAW "S0"', 'DRAW "S256"', 'DRAW "A4"',
+                         'GET (0,0)-(%d,%d),A%%' % (g.W - 1, g.H - 1)])
+        r = g.ex(st)
+        self.noise[r[0]] = self.noise.get(r[0], 0) + 1
+        if r[0] != 'err':
+            raise core.MachineryError('the statement %r was expected to be refused in %s but gave %r' % (st, self.tag, r[:2]))
+        # the error message was written over the graphics screen: repaint
+        self.background()
 
     # ---- primitives --------------------------------------------------------
     def pset(self):
@@ -223,8 +243,9 @@ def run(ctx):
     t0 = time.time()
     events = []
     rounds = ctx.pick(2, 8)
-    per = ctx.pick(dict(pset=6, line=9, box=3, boxf=3, gp=2), dict(pset=20, line=40, box=10, boxf=10, gp=5))
+    per = ctx.pick(dict(pset=6, line=9, box=3, boxf=3, gp=2, refused=2), dict(pset=20, line=40, box=10, boxf=10, gp=5, refused=5))
     modes_done = []
+    nrefused = 0
     for adapter, nr in gfx.ALL_MODES:
         m = ModeRun(ctx, adapter, nr, events)
         if not m.ok:
@@ -233,7 +254,8 @@ def run(ctx):
         modes_done.append(m.tag + ':' + m.g.modename)
         for _ in range(rounds):
             m.background()
-            todo = (['pset'] * per['pset'] + ['line'] * per['line'] + ['box'] * per['box'] + ['boxf'] * per['boxf'] + ['gp'] * per['gp'])
+            todo = (['pset'] * per['pset'] + ['line'] * per['line'] + ['box'] * per['box'] + ['boxf'] * per['boxf'] + ['gp'] * per['gp']
+                    + ['refused'] * per['refused'])
             ctx.rng.shuffle(todo)
             for t in todo:
                 if t == 'pset':
@@ -244,10 +266,14 @@ def run(ctx):
                     m.box(False)
                 elif t == 'boxf':
                     m.box(True)
+                elif t == 'refused':
+                    m.refused()
                 else:
                     m.getput()
                     m.background()      # GET/PUT cases paint with every attribute: start over
+        nrefused += m.noise.get('err', 0)
         m.close()
+    ctx.cov['refused_statements_interleaved'] = nrefused
     ctx.cov['impl_wall_s'] = round(time.time() - t0, 1)
     ctx.cov['modes'] = modes_done
     ops = {}
